@@ -2194,6 +2194,56 @@ def _forward_hoisted(fn: ast.AST) -> int:
     return k
 
 
+def _coalesce_copies(fn: ast.AST) -> int:
+    """T32: `a = b` where the local b is never mentioned afterwards and a never before (the result variable of an inlined
+    helper, a renamed temporary): b is a from the start, the copy goes"""
+    k = 0
+    a_ = fn.args if isinstance(fn, (ast.FunctionDef, ast.AsyncFunctionDef)) else None
+    params = {p_.arg for p_ in (a_.posonlyargs + a_.args + a_.kwonlyargs)} if a_ else set()
+    if a_ and a_.vararg:
+        params.add(a_.vararg.arg)
+    if a_ and a_.kwarg:
+        params.add(a_.kwarg.arg)
+    if any(isinstance(n, (ast.Global, ast.Nonlocal)) for n in ast.walk(fn)):
+        return 0
+    changed = True
+    while changed:
+        changed = False
+        for body in _bodies(fn):
+            for i, st in enumerate(body):
+                if not (isinstance(st, ast.Assign) and len(st.targets) == 1 and isinstance(st.targets[0], ast.Name) and isinstance(st.value, ast.Name)):
+                    continue
+                a, b = st.targets[0].id, st.value.id
+                if a == b or b in params or a in params:
+                    continue
+                before = {id(n) for t in body[:i] for n in ast.walk(t)}
+                after = {id(n) for t in body[i + 1:] for n in ast.walk(t)}
+                own = {id(n) for n in ast.walk(st)}
+                mb = [n for n in ast.walk(fn) if isinstance(n, ast.Name) and n.id == b and id(n) not in own]
+                ma = [n for n in ast.walk(fn) if isinstance(n, ast.Name) and n.id == a and id(n) not in own]
+                if not mb or not all(id(n) in before for n in mb) or not all(id(n) in after for n in ma):
+                    continue
+                # nested functions must not mention either name
+                if any(isinstance(n, (ast.FunctionDef, ast.Lambda)) and n is not fn and any(isinstance(x, ast.Name) and x.id in (a, b) for x in ast.walk(n))
+                       for n in ast.walk(fn)):
+                    continue
+                # b is bound by a plain top-level statement of this block before anything reads it
+                first = next((t for t in body[:i] if any(isinstance(n, ast.Name) and n.id == b for n in ast.walk(t))), None)
+                tg = first.targets[0] if isinstance(first, ast.Assign) and len(first.targets) == 1 else \
+                    first.target if isinstance(first, ast.AnnAssign) and first.value is not None else None
+                if not (isinstance(tg, ast.Name) and tg.id == b and not any(isinstance(n, ast.Name) and n.id == b for n in ast.walk(first.value))):
+                    continue
+                for n in mb:
+                    n.id = a
+                body.remove(st)
+                k += 1
+                changed = True
+                break
+            if changed:
+                break
+    return k
+
+
 def _delegating_generators(tree: ast.Module) -> int:
     """T21: a module-level generator whose whole body is `yield from E` hands out exactly the items of E; when every
     call of it is the iterable of a `for` statement or of a comprehension (consumed at once, on the spot), the call
@@ -2267,4 +2317,5 @@ def normalise(tree: ast.Module, modname: str = "") -> Dict[str, int]:
         stats["T1 splat"] += _splat(fn)
         stats["T1 splat"] += _forward_hoisted(fn)
         stats["T4 tests"] += _inline_tests(fn)
+    stats["T32 copy coalescing"] = sum(_coalesce_copies(fn) for fn in fns)
     return stats
